@@ -105,6 +105,40 @@ def bswap (v : BitVec 64) (w : Nat) : BitVec 64 := BitVec.ofNat 64 (leValue (leB
 def pktAbs (s : State) (imm : BitVec 32) (k : BitVec 64 → Outcome) : Outcome :=
   if s.mem.mem.base + imm.toNat ≥ 2 ^ 64 then .panic else k (BitVec.ofNat 64 (s.mem.mem.base + imm.toNat))
 
+/-- `CALL` with `src = 0`: the registered helper is invoked once with (r1..r5), its result goes to r0 -/
+def callHelper (env : Env) (s : State) (imm : BitVec 32) : Outcome :=
+  match env.helpers imm.toNat with
+  | some f =>
+    rd s 1 fun a1 => rd s 2 fun a2 => rd s 3 fun a3 => rd s 4 fun a4 => rd s 5 fun a5 =>
+      wr { s with log := s.log ++ [(imm.toNat, [a1, a2, a3, a4, a5])] } 0 (f a1 a2 a3 a4 a5)
+  | none => .err .unknownHelper s
+
+/-- `CALL` with `src = 1` (eBPF-to-eBPF call); `s.pc` is the return address -/
+def callLocal (s : State) (imm : BitVec 32) : Outcome :=
+  if s.depth ≥ 8 then .err .callDepth s
+  else
+    rd s 6 fun r6 => rd s 7 fun r7 => rd s 8 fun r8 => rd s 9 fun r9 => rd s 10 fun r10 =>
+      let u := (s.usage[s.depth]?).getD 0
+      if r10.toNat < u then .panic           -- `reg[10] -= …` underflow (overflow-checked build)
+      else
+        let s' := { s with reg := s.reg.setIfInBounds 10 (r10 - BitVec.ofNat 64 u),
+                           frames := { ret := s.pc, saved := (r6, r7, r8, r9) } :: s.frames }
+        jumpTo s' ((s.pc : Int) + imm.toInt)
+
+/-- `EXIT`: return from a local function, or end of the program at depth 0 -/
+def exitInsn (s : State) : Outcome :=
+  match s.frames with
+  | [] => rd s 0 fun r0 => .done r0 s
+  | f :: rest =>
+    rd s 10 fun r10 =>
+      let u := (s.usage[rest.length]?).getD 0
+      if r10.toNat + u ≥ 2 ^ 64 then .panic    -- `reg[10] += …` overflow
+      else
+        .next { s with
+          reg := ((((s.reg.setIfInBounds 6 f.saved.1).setIfInBounds 7 f.saved.2.1).setIfInBounds 8 f.saved.2.2.1).setIfInBounds 9
+                   f.saved.2.2.2).setIfInBounds 10 (r10 + BitVec.ofNat 64 u),
+          pc := f.ret, frames := rest }
+
 /-- the body of the interpreter's `match insn.opc` for one instruction; `s.pc` is already `insn_ptr + 1` -/
 def exec (env : Env) (s : State) (insn : Insn) : Outcome :=
   let dst := insn.dst.toNat
@@ -256,37 +290,11 @@ def exec (env : Env) (s : State) (insn : Insn) : Outcome :=
   | 0xde => rd s dst fun d => rd s src fun x => branch s off ((lo32 d).sle (lo32 x))
   -- calls and exit -------------------------------------------------------------------------------
   | 0x85 =>
-    if src = 0 then
-      match env.helpers imm.toNat with
-      | some f =>
-        rd s 1 fun a1 => rd s 2 fun a2 => rd s 3 fun a3 => rd s 4 fun a4 => rd s 5 fun a5 =>
-          wr { s with log := s.log ++ [(imm.toNat, [a1, a2, a3, a4, a5])] } 0 (f a1 a2 a3 a4 a5)
-      | none => .err .unknownHelper s
-    else if src = 1 then
-      if s.depth ≥ 8 then .err .callDepth s
-      else
-        rd s 6 fun r6 => rd s 7 fun r7 => rd s 8 fun r8 => rd s 9 fun r9 => rd s 10 fun r10 =>
-          let u := (s.usage[s.depth]?).getD 0
-          if r10.toNat < u then .panic           -- `reg[10] -= …` underflow (overflow-checked build)
-          else
-            let s' := { s with reg := s.reg.setIfInBounds 10 (r10 - BitVec.ofNat 64 u),
-                               frames := { ret := s.pc, saved := (r6, r7, r8, r9) } :: s.frames }
-            jumpTo s' ((s.pc : Int) + imm.toInt)
+    if src = 0 then callHelper env s imm
+    else if src = 1 then callLocal s imm
     else .err .callType s
   | 0x8d => .err .tailCall s
-  | 0x95 =>
-    match s.frames with
-    | [] => rd s 0 fun r0 => .done r0 s
-    | f :: rest =>
-      rd s 10 fun r10 =>
-        let u := (s.usage[rest.length]?).getD 0
-        if r10.toNat + u ≥ 2 ^ 64 then .panic    -- `reg[10] += …` overflow
-        else
-          let (r6, r7, r8, r9) := f.saved
-          .next { s with
-            reg := ((((s.reg.setIfInBounds 6 r6).setIfInBounds 7 r7).setIfInBounds 8 r8).setIfInBounds 9 r9).setIfInBounds 10
-                     (r10 + BitVec.ofNat 64 u),
-            pc := f.ret, frames := rest }
+  | 0x95 => exitInsn s
   | _ => .panic                                  -- `unreachable!()`
 
 /-- one iteration of the `while insn_ptr * INSN_SIZE < prog.len()` loop -/
